@@ -90,7 +90,14 @@ def diff_kind(x, y):
     if len(x) != len(y):
         return "different-number-of-results"
     fields = set()
-    for a, b in zip(sorted(x), sorted(y)):
+    # align the two answers by (name, complete) before comparing field by field: sorting the serialised items puts two
+    # entries that differ in their column or path at different places and then every field seems to differ
+    def key_(item):
+        m = re.search(r"\('name', ('[^']*'|None)\)", item)
+        c = re.search(r"\('complete', ('[^']*'|None)\)", item)
+        return (m.group(1) if m else "", c.group(1) if c else "")
+    xs, ys = sorted(x, key=lambda i: (key_(i), i)), sorted(y, key=lambda i: (key_(i), i))
+    for a, b in zip(xs, ys):
         fa = dict(re.findall(r"\('(\w+)', ([^()]*?)\)(?:, |\)$)", a + ")"))
         fb = dict(re.findall(r"\('(\w+)', ([^()]*?)\)(?:, |\)$)", b + ")"))
         fields |= {k for k in set(fa) | set(fb) if fa.get(k) != fb.get(k)}
